@@ -144,7 +144,11 @@ def check_C14(run, replay=None):
         else:
             if corpus:
                 cases += run_harness(run, bins, "httpreq_build", "--replay " + " ".join(corpus))
-            cases += run_harness(run, bins, "httpreq_build", "%d %d" % (run.seed, count), timeout=1800)
+            # batches keep memory bounded (64 KiB bodies appear twice, in hex, in every case that has one)
+            B = 3000; nb = (count + B - 1) // B
+            for b in range(1, nb):
+                evaluate_C14(run, run_harness(run, bins, "httpreq_build", "%d %d" % (run.seed * 1000003 + b, B), timeout=1800), bins)
+            cases += run_harness(run, bins, "httpreq_build", "%d %d" % (run.seed, min(B, count)), timeout=1800)
     evaluate_C14(run, cases, bins if ok else None)
     run.cov["rule"] = ("request descriptions = entry point (9 verb shorthands with a URL string | request(Method, Url) over all 39 methods, "
                        "URLs built from schemes/hosts/ports/paths/queries/fragments incl. unicode, percent-escapes, dot segments, base joins) x call list "
@@ -202,8 +206,11 @@ def evaluate_C14(run, cases, bins=None):
         run.violation("correspondence", {"property": "C14", "what": "model and implementation differ; C14_ok still holds on every implementation observation seen",
                                          "cases": [slim(j, full=True) for j in (bad_model + gen_bugs + rust_bad)[:20]], "broken": "correspondence HttpReq.Model vs crux_http"}, no_input=True)
     run.cov["samples"] = [slim(j) for j in cases[:2] + cases[-2:]]
-    run.extra["distribution"] = {"by_origin_api_entry_outcome": {"/".join(k): v for k, v in sorted(hist.items())},
-                                 "calls_per_description": {str(k): v for k, v in sorted(sizes.items())}, "call_kinds": dict(opk)}
+    if not hasattr(run, "_c14acc"): run._c14acc = [collections.Counter(), collections.Counter(), collections.Counter()]
+    acc = run._c14acc
+    acc[0].update({"/".join(k): v for k, v in hist.items()}); acc[1].update({str(k): v for k, v in sizes.items()}); acc[2].update(opk)
+    run.extra["distribution"] = {"by_origin_api_entry_outcome": dict(sorted(acc[0].items())),
+                                 "calls_per_description": dict(acc[1]), "call_kinds": dict(acc[2])}
 
 def slim(j, full=False):
     """a case without megabytes of hex (full=True keeps what a replay needs: the description)"""
@@ -302,7 +309,10 @@ def check_C11(run, replay=None):
         else:
             for f in corpus:
                 cases += run_harness(run, bins, "httpreq_replay", "--replay " + f)
-            cases += run_harness(run, bins, "httpreq_replay", "%d %d %d" % (run.seed, nh, ne), timeout=2400)
+            BH, BE = 500, 2000; nb = (nh + BH - 1) // BH
+            for b in range(1, nb):
+                evaluate_C11(run, run_harness(run, bins, "httpreq_replay", "%d %d %d" % (run.seed * 1000003 + b, BH, BE), timeout=2400))
+            cases += run_harness(run, bins, "httpreq_replay", "%d %d %d" % (run.seed, min(BH, nh), min(BE, ne)), timeout=2400)
     evaluate_C11(run, cases)
     run.cov["rule"] = ("(a) histories of 2..8 steps: events issuing 1..5 operations each (HTTP descriptions with >= 2 extra headers through the command or capability API, key-value get/set/delete/exists/list, "
                        "time now/notify_after/notify_at/clear, render), resolutions of the k-th outstanding request with a seeded response, view reads; every history is replayed against a fresh Core 3x in-process and "
@@ -359,7 +369,10 @@ def evaluate_C11(run, cases):
         run.violation("correspondence", {"property": "C11", "what": "model and implementation differ; replays agree and == is content equality on everything seen",
                                          "cases": [slim11(j) for j in (bad_model + gen_bugs)[:20]], "broken": "correspondence HttpReq.Replay / HttpReq.Eq vs crux"}, no_input=True)
     run.cov["samples"] = [slim11(j) for j in reps[:2] + eqs[:2]]
-    run.extra["distribution"] = {"cases": {"/".join(map(str, k)): v for k, v in sorted(hist.items(), key=str)}, "operations_in_histories": dict(opk)}
+    if not hasattr(run, "_c11acc"): run._c11acc = [collections.Counter(), collections.Counter()]
+    acc = run._c11acc
+    acc[0].update({"/".join(map(str, k)): v for k, v in hist.items()}); acc[1].update(opk)
+    run.extra["distribution"] = {"cases": dict(sorted(acc[0].items())), "operations_in_histories": dict(acc[1])}
 
 def slim11(j):
     def cut(x):
